@@ -105,7 +105,7 @@ class P(Prop):
                             # the rule the masses are integrated with: per-interval sums, or trapezoid / Simpson on a fixed step
                             "method": rng.choice(["sum_with_time", "sum_with_time", "trapezoid", "simpson"])})
                 if out[-1]["method"] != "sum_with_time" and out[-1]["stream"] == "mass":
-                    nst2 = rng.randint(3, 9)
+                    nst2 = rng.choice([1, 1, 2] + list(range(3, 10)))       # a single operating point included
                     out[-1]["power"] = [Fraction(rng.randint(0, 80), 8) * 100 for _ in range(nst2)]
                     out[-1]["dt"] = [Fraction(rng.randint(1, 40) * 15)] * nst2
         return out
@@ -282,7 +282,10 @@ class P(Prop):
             if method != "sum_with_time":
                 from scipy.integrate import simpson, trapezoid
                 rate = [g[k] * float(p) / 3600 / 1000 for k, p in enumerate(case["power"])]      # kg/s
-                want = float((trapezoid if method == "trapezoid" else simpson)(rate, dx=float(case["dt"][0])))
+                if len(rate) == 1:       # one operating point held for the interval (what fuel and energy of the same machine get)
+                    want = rate[0] * float(case["dt"][0])
+                else:
+                    want = float((trapezoid if method == "trapezoid" else simpson)(rate, dx=float(case["dt"][0])))
                 if abs(m - want) > 1e-9 * max(1.0, abs(want)):
                     return (f"species {sp}: {m} kg, but the {method} integral of curve value x power over the fixed step "
                             f"{float(case['dt'][0])} s is {want} kg (the rule the fuel and the energy of the same machine use)")
